@@ -114,6 +114,9 @@ RootsOpt(n, R, k) ==      \* sequences of optional vertices ({} = None)
     CASE k = 1 -> [i \in 1 .. R |-> {}]
       [] k = 2 -> [i \in 1 .. R |-> IF i = 1 THEN {n - 1} ELSE {}]
       [] k = 3 -> [i \in 1 .. R |-> {((i - 1) * 2) % n}]
+      [] k = 4 -> [i \in 1 .. R + 1 |-> IF i = R + 1 THEN {0} ELSE {}]      \* a list longer than the number of labels: position R names
+                                                                            \* a label no vertex can carry - nothing is admitted
+      [] k = 5 -> [i \in 1 .. R + 2 |-> IF i = 1 THEN {n - 1} ELSE {}]      \* over-long, the extra entries None: as k = 2
       [] OTHER -> <<>>
 RootsJson(r) == [i \in DOMAIN r |-> IF r[i] = {} THEN -1 ELSE CHOOSE x \in r[i] : TRUE]
 DivBase == SmallGraphs(IF Quick THEN 3 ELSE 4) \o
@@ -124,11 +127,11 @@ DivBase == SmallGraphs(IF Quick THEN 3 ELSE 4) \o
            Grids(IF Quick THEN {<<1, 1>>, <<1, 3>>, <<2, 2>>, <<3, 1>>, <<2, 3>>}
                  ELSE {<<1, 1>>, <<1, 2>>, <<1, 3>>, <<2, 2>>, <<3, 1>>, <<2, 3>>, <<3, 2>>, <<1, 4>>})
 DivObjs ==
-    LET combos == {<<i, R, k, ae>> : i \in DOMAIN DivBase, R \in 1 .. 3, k \in 0 .. 3, ae \in BOOLEAN}
+    LET combos == {<<i, R, k, ae>> : i \in DOMAIN DivBase, R \in 1 .. 3, k \in 0 .. 5, ae \in BOOLEAN}
         q == SetToSeq(combos)
     IN  [j \in DOMAIN q |-> [base |-> DivBase[q[j][1]], R |-> q[j][2], k |-> q[j][3], ae |-> q[j][4]]]
     \o (IF Quick THEN <<>> ELSE
-        LET c2 == SetToSeq({<<R, k, ae>> : R \in 1 .. 2, k \in 0 .. 3, ae \in BOOLEAN}) IN
+        LET c2 == SetToSeq({<<R, k, ae>> : R \in 1 .. 2, k \in 0 .. 5, ae \in BOOLEAN}) IN
         [j \in DOMAIN c2 |-> [base |-> GridObj(3, 3), R |-> c2[j][1], k |-> c2[j][2], ae |-> c2[j][3]]])
 DivRec(o) ==
     LET g == o.base.graph  roots == RootsOpt(g.n, o.R, o.k)  nl == o.R ^ g.n IN
@@ -154,13 +157,15 @@ SizeSpec(n, k) ==
       [] k = 6 -> [kind |-> "list",   sz |-> [v \in 0 .. n - 1 |-> IF v % 2 = 0 THEN {2} ELSE {}]]
       [] k = 7 -> [kind |-> "list",   sz |-> [v \in 0 .. n - 1 |-> IF v = 0 THEN {2} ELSE {3}]]          \* no hole, sizes differ
       [] k = 8 -> [kind |-> "list",   sz |-> [v \in 0 .. n - 1 |-> {1 + (v % 3)}]]                       \* no hole, sizes differ
+      [] k = 9 -> [kind |-> "const0", sz |-> [v \in 0 .. n - 1 |-> {0}]]                               \* no block has 0 vertices: nothing is realisable
+      [] k = 10 -> [kind |-> "list",  sz |-> [v \in 0 .. n - 1 |-> IF v = n - 1 THEN {0} ELSE {}]]      \* one impossible entry
 SzJson(n, sz) == [v \in 1 .. n |-> IF sz[v - 1] = {} THEN -1 ELSE CHOOSE x \in sz[v - 1] : TRUE]
 GroupBase == SmallGraphs(IF Quick THEN 3 ELSE 4) \o
              << GraphObj("path4", PathG(4)), GraphObj("cycle4", CycleG(4)), GraphObj("star4", StarG(4)),
                 GraphObj("path5", PathG(5)), GraphObj("cycle5", CycleG(5)),
                 GraphObj("digon+tail", G(3, <<<<0, 1>>, <<0, 1>>, <<1, 2>>>>)) >> \o
              Grids(IF Quick THEN {<<1, 1>>, <<1, 3>>, <<2, 2>>, <<2, 3>>} ELSE {<<1, 1>>, <<1, 2>>, <<1, 3>>, <<3, 1>>, <<2, 2>>, <<2, 3>>, <<3, 2>>})
-GroupObjs == LET q == SetToSeq({<<i, k>> : i \in DOMAIN GroupBase, k \in 0 .. 8})
+GroupObjs == LET q == SetToSeq({<<i, k>> : i \in DOMAIN GroupBase, k \in 0 .. 10})
              IN  [j \in DOMAIN q |-> [base |-> GroupBase[q[j][1]], k |-> q[j][2]]]
 GroupRec(o) ==
     LET g == o.base.graph  spec == SizeSpec(g.n, o.k)
@@ -179,7 +184,7 @@ BorderBase == SmallGraphs(IF Quick THEN 3 ELSE 4) \o
               (LET q == SetToSeq(IF Quick THEN {<<1, 1>>, <<1, 3>>, <<2, 2>>, <<2, 3>>}
                                  ELSE {<<1, 1>>, <<1, 2>>, <<1, 3>>, <<3, 1>>, <<2, 2>>, <<2, 3>>, <<3, 2>>, <<3, 3>>})
                IN [i \in DOMAIN q |-> InnerObj(q[i][1], q[i][2])])
-BorderObjs == LET q == SetToSeq({<<i, k>> : i \in DOMAIN BorderBase, k \in {0, 1, 2, 4, 5, 6, 7, 8}})
+BorderObjs == LET q == SetToSeq({<<i, k>> : i \in DOMAIN BorderBase, k \in {0, 1, 2, 4, 5, 6, 7, 8, 9, 10}})
               IN  [j \in DOMAIN q |-> [base |-> BorderBase[q[j][1]], k |-> q[j][2]]]
 BorderRec(o) ==
     LET g == o.base.graph  m == Len(g.edges)  spec == SizeSpec(g.n, o.k) IN
